@@ -1,4 +1,6 @@
 import functools
+
+import numpy as np
 import math
 import operator
 
@@ -731,7 +733,7 @@ class BroadcastJoin(Merge, PartitionsFiltered):
         for part_out in self._partitions:
             if self.how != "inner":
                 dsk[(split_name, part_out)] = (
-                    _split_partition,
+                    _split_partition_like_shuffle,
                     (other, part_out),
                     other_on,
                     bcast_size,
@@ -765,6 +767,31 @@ class BroadcastJoin(Merge, PartitionsFiltered):
                 _concat_list.append(inter_key)
             dsk[(self._name, part_out)] = (_concat_wrapper, _concat_list)
         return dsk
+
+
+def _split_partition_like_shuffle(df, on, nsplits):
+    """Split-by-hash a partition into ``nsplits`` groups
+
+    The broadcasted side of a ``BroadcastJoin`` is hash-partitioned by
+    ``RearrangeByColumn``. The other side has to be split with exactly the same
+    partition number for every key, i.e. after the same casting of the key columns.
+    """
+    from dask.dataframe.dispatch import group_split_dispatch
+
+    from dask_expr._shuffle import _is_numeric_cast_type
+
+    if on is None or isinstance(on, bytes):
+        return _split_partition(df, on, nsplits)
+    keys = _select_columns_or_index(df, on)
+    if not hasattr(keys, "dtypes") or keys.ndim != 2:
+        return _split_partition(df, on, nsplits)
+    dtypes = {
+        col: np.float64
+        for col, dtype in keys.dtypes.items()
+        if _is_numeric_cast_type(dtype)
+    }
+    ind = partitioning_index(keys, nsplits, cast_dtype=dtypes or None)
+    return group_split_dispatch(df, ind, nsplits, ignore_index=False)
 
 
 def create_assign_index_merge_transfer():
